@@ -46,8 +46,23 @@ func (s scriptedSvc) Shutdown(ctx context.Context) error {
 		return errSvc
 	case 'p':
 		panic("service panic")
+	case 'b':
+		// a service that uses up the whole shutdown timeout and then reports the context's error
+		<-ctx.Done()
+		return ctx.Err()
+	case 'B':
+		// ... or reports success after it
+		<-ctx.Done()
 	}
 	return nil
+}
+
+// shutdownTimeoutFor: services of mode b/B wait for the deadline, so it is short when there are any
+func shutdownTimeoutFor(outs string) time.Duration {
+	if strings.ContainsAny(outs, "bB") {
+		return 25 * time.Millisecond
+	}
+	return time.Second
 }
 
 var sigOf = map[byte]os.Signal{'h': syscall.SIGHUP, 'u': syscall.SIGUSR1, 'w': syscall.SIGWINCH, 'i': syscall.SIGINT, 'q': syscall.SIGQUIT, 't': syscall.SIGTERM}
@@ -56,7 +71,7 @@ var sigOf = map[byte]os.Signal{'h': syscall.SIGHUP, 'u': syscall.SIGUSR1, 'w': s
 func execSig(args []string) string {
 	n := &capNotifier{}
 	h := service.NewSignalHandler(&service.SignalHandlerConfig{
-		SignalNotifier: n, Logger: slog.New(slog.NewTextHandler(io.Discard, nil)), ShutdownTimeout: time.Second,
+		SignalNotifier: n, Logger: slog.New(slog.NewTextHandler(io.Discard, nil)), ShutdownTimeout: shutdownTimeoutFor(args[1]),
 	})
 	var mu sync.Mutex
 	var log []string
@@ -431,6 +446,13 @@ func genC18(g *G) {
 	rec("")
 	g.Emit("sig", "h", "nn")
 	g.Emit("sig", "-", "n")
+	// the shutdown deadline passes while a service is still shutting down: the services registered
+	// before it are shut down all the same (with the expired context)
+	for _, outs := range []string{"b", "nb", "bn", "nbn", "nnb", "nnbn", "bbn", "nBn", "eBn", "pbn", "nbe", "Bn", "nnnb"} {
+		for _, p := range []string{"t", "hi"} {
+			g.Emit("sig", p, outs)
+		}
+	}
 	// refresh scripts
 	evs := []string{"t0", "t1", "t0", "t1", "s0", "s1", "t2", "t3", "t4", "s2", "s3"}
 	for i := 0; i < g.N(1500, 40000); i++ {
